@@ -207,7 +207,8 @@ pub fn make_case(progs: &[Vec<L>], cause: Cause, resolver: Resolver, mailbox: Ma
         Cause::StopClient | Cause::LastDrop => {}
     }
     let desc = format!(
-        "resolve mailbox={} cause={:?} resolver={:?} progs={}",
+        "resolve{} mailbox={} cause={:?} resolver={:?} progs={}",
+        crate::progscene::variant_tag(),
         mailbox.name(),
         cause,
         resolver,
@@ -217,7 +218,7 @@ pub fn make_case(progs: &[Vec<L>], cause: Cause, resolver: Resolver, mailbox: Ma
         desc,
         exec,
         bound,
-        scene: Box::new(ProgScene { attach: crate::progscene::Attach::None, spawn, roles: vec![role], clients, extra: X { cause }, oracle }),
+        scene: Box::new(ProgScene { attach: crate::progscene::attach_for(mailbox), spawn, roles: vec![role], clients, extra: X { cause }, oracle }),
     }
 }
 
@@ -235,7 +236,7 @@ fn resolvers_for(cause: Cause) -> Vec<Resolver> {
     }
 }
 
-fn cases(tier: Tier) -> Vec<Case> {
+fn plain_cases(tier: Tier) -> Vec<Case> {
     let mut v = vec![];
     let first0 = [L::CallAddr, L::CallCal, L::CallWCal, L::CallOwn];
     let first1 = [L::CallAddr, L::CallCal, L::CallWCal];
@@ -291,6 +292,21 @@ fn cases(tier: Tier) -> Vec<Case> {
             }
         }
     }
+    v
+}
+
+/// The family on the plain event loop, plus (every third case in the quick tier, all of them in
+/// the thorough tier) the same programs on the stream loop: the actor is attached to a stream
+/// that stays open and never yields, so `create_loop_on_stream` serves the mailbox.
+fn cases(tier: Tier) -> Vec<Case> {
+    let mut v = plain_cases(tier);
+    let s = crate::progscene::with_stream_variant(|| plain_cases(tier));
+    v.extend(s.into_iter().enumerate().filter(|(i, c)| (tier == Tier::Thorough || i % 3 == 0) && !c.desc.contains("TimeoutFail")).map(|(_, mut c)| {
+        // the attached stream is never ready, so the loop's select! tie-break cannot change anything:
+        // it is not explored as a choice here (C13 explores it, with streams that do yield)
+        c.exec.select_choice = false;
+        c
+    }));
     v
 }
 
